@@ -7,7 +7,8 @@ IMPORTS = ['Engine.Db', 'Engine.DbCursor', 'Engine.DbFacts', 'Engine.RunDb', 'En
 THEOREMS = ['C14_cursor_visits_snapshot', 'C14_query_snapshot_at_first_next', 'C14_retract_at_most_once',
             'C14_retract_at_most_once_from_init', 'C14_no_lost_update', 'C14_cursor_finite', 'C14_retract_goal_finite',
             'C14_compiled_no_lost_update', 'C14_compiled_retract_at_most_once', 'C14_retract_cursor_in_snapshot_order',
-            'C14_compiled_run_is_cursor_history', 'C14_compiled_cursor_visits_snapshot', 'C14_compiled_history_no_lost_update']
+            'C14_compiled_run_is_cursor_history', 'C14_compiled_cursor_visits_snapshot', 'C14_compiled_history_no_lost_update',
+            'C14_compiled_cut_not_propagated', 'C14_compiled_cut_ends_own_clause_only']
 RULE = ('(a) event histories with 1-4 simultaneously suspended cursors (queries and retracts, started through the API, '
         'compiled clauses, call/1 and goals held in variables) mostly on ONE predicate, with asserta/assertz/retractall/'
         'clear and answers of other retract cursors between any two next(); all predicates read back after every event; '
@@ -16,7 +17,8 @@ RULE = ('(a) event histories with 1-4 simultaneously suspended cursors (queries 
         'contents that the logical update view prescribes.  Non-trivial: an update of the enumerated predicate happens '
         'while a cursor on it is suspended (a); the loop body runs at least once (b).  (c) kind dbprog: generated programs '
         '(see C07) with up to 3 nested enumerating goals (p(X), retract(p(X)), helper calls) and updates of the same '
-        'predicate in the rest of the body, mostly failure-driven; compiled by the real compiler; compared with the model '
+        'predicate in the rest of the body, mostly failure-driven; half of them with !, fail, ;, -> (with / without else), \\+ '
+        'around the goals and updates (cuts also in conditions, negations, helper predicates); compiled by the real compiler; compared with the model '
         'Engine/DbProg.v (answers, final facts, number of facts stored).  Non-trivial (c): an enumerating goal is followed in '
         'the same body by an update of its predicate.  Distinct by hash of the case.')
 TRUSTED_BASE = [
